@@ -9,6 +9,9 @@
 #ifndef CRC_CONTRACT_MAXN
 #	define CRC_CONTRACT_MAXN 8
 #endif
+#ifndef CRC64_CONTRACT_MAXN
+#	define CRC64_CONTRACT_MAXN 4
+#endif
 
 extern uint32_t lzma_crc32(const uint8_t *buf, size_t size, uint32_t crc)
 REQUIRES(size <= CRC_CONTRACT_MAXN)
@@ -17,7 +20,7 @@ ENSURES(RET == spec_crc32(buf, size, crc))
 ASSIGNS();
 
 extern uint64_t lzma_crc64(const uint8_t *buf, size_t size, uint64_t crc)
-REQUIRES(size <= CRC_CONTRACT_MAXN)
+REQUIRES(size <= CRC64_CONTRACT_MAXN)
 REQUIRES(__CPROVER_is_fresh(buf, size))
 ENSURES(RET == spec_crc64(buf, size, crc))
 ASSIGNS();
